@@ -153,6 +153,9 @@ class ClassWorld:
                 op['when'] = rng.choice(['exit', 'enter'])
             if k == 'kec':
                 op['mode'] = rng.choice(['plain', 'touch', 'touch', 'cset', 'cset', 'cset_sub', 'cset_sub', 'watch_enter', 'watch_exit'])
+            if k in ('itrigger', 'iupdctx'):
+                # a watcher of the triggered parameter raises / the body of the update block raises (seeded change C12-m14)
+                op['fail'] = rng.random() < 0.4
             if k == 'new' or k == 'newk':
                 op['kw'] = [p for p in used if p not in ('r',) and rng.random() < 0.3]
             if k == 'addp_bad':
@@ -207,6 +210,10 @@ class ClassWorld:
 
 class _Stop(Exception):
     pass
+
+
+class _Injected(Exception):
+    """raised by a watcher or a context body on the simulator's behalf"""
 
 
 class _Run:
@@ -644,7 +651,21 @@ class _Run:
             if p not in self.visible(m['c']) or p in ('k', 'r', 'esel', 'kn'):
                 return
             o = self.insts[i]
-            if k == 'itrigger':
+            if k == 'itrigger' and op.get('fail'):
+                def failing(*events):
+                    raise _Injected('watcher of a triggered parameter')
+                h = o.param.watch(failing, [p], onlychanged=False)
+                try:
+                    o.param.trigger(p)
+                    self.viol('C12.harness', 'the failing watcher of a triggered parameter was not called')
+                except _Injected:
+                    pass
+                finally:
+                    o.param.unwatch(h)
+                for q in self.visible(m['c']):
+                    self.ensure_copy(i, q)
+                self.out.stats['fault.watcher_raises_in_trigger_on_instance'] += 1
+            elif k == 'itrigger':
                 o.param.trigger(p)
                 for q in self.visible(m['c']):       # (looking for Event parameters it visits every instance Parameter)
                     self.ensure_copy(i, q)
@@ -653,8 +674,16 @@ class _Run:
                 self.counter += 1
                 if v is None:
                     v = self.new_list() if KINDS[p][1] else self.fresh_int()
-                with o.param.update(**{p: v}):
-                    pass
+                if op.get('fail'):
+                    try:
+                        with o.param.update(**{p: v}):
+                            raise _Injected('body of an update block')
+                    except _Injected:
+                        pass
+                    self.out.stats['fault.update_block_body_raises_on_instance'] += 1
+                else:
+                    with o.param.update(**{p: v}):
+                        pass
             self.ensure_copy(i, p)
             self.out.stats['probe.trigger_or_update_block_on_instance'] += 1
         elif k == 'imut' and has_inst:
